@@ -20,7 +20,7 @@ INNER = {
     "c13_bytes_roundtrip": ("one field, index < 62", ["inners::set_bytes", "inners::get_bytes"]),
     "c13_shorts_roundtrip": ("one field, index < 62", ["inners::set_shorts", "inners::get_shorts"]),
     "c13_guid_roundtrip": ("one guid field (two words), index < 62", ["inners::set_guid", "inners::get_guid"]),
-    "c13_write_and_read_one_field": ("one field, index < 62, optional dirty_reset", ["inners::write_into_vec", "inners::read_inner", "inners::update_mask_size"]),
+    "c13_write_and_read_one_field": ("one field, index < 32 (one block), optional dirty_reset", ["inners::write_into_vec", "inners::read_inner", "inners::update_mask_size"]),
 }
 
 
